@@ -246,6 +246,19 @@ def put (E : Env) (k : Key) (v : Val) (throw : Bool) : M Obj Unit := fun o =>
     | some _ => (do let _ ← defineOwn E k { v := some v } throw; pure ()) o          -- 3
     | none => (do let _ ← defineOwn E k ⟨some v, some true, some true, some true⟩ throw; pure ()) o   -- 6
 
+/-- §15.2.3.9 Object.freeze / §15.2.3.8 Object.seal -/
+def freezeEach (E : Env) (onlySeal : Bool) : List Key → M Obj Unit
+  | [] => pure ()
+  | p :: rest => fun o =>
+    match lookup p o.props with
+    | some desc =>
+      (do let _ ← defineOwn E p ⟨some desc.v, some (if onlySeal then desc.w else false), some desc.e, some false⟩ true
+          freezeEach E onlySeal rest) o
+    | none => freezeEach E onlySeal rest o
+
+def freeze (E : Env) (onlySeal : Bool) : M Obj Unit := fun o =>
+  (do freezeEach E onlySeal (o.props.map Prod.fst); M.modify (fun (o : Obj) => { o with ext := false })) o
+
 /-! ## §15.4.4 Array.prototype -/
 
 /-- §15.4.4.10 steps 5–8: a relative index clamped into [0, len] -/
@@ -342,6 +355,194 @@ def indexOf (args : List Val) : M σ Ret := fun s =>
           O.has s (k + j) && strictEq E searchElement (O.get s (k + j))) with
       | some j => .ok (Ret.val (.int ((k + j : Nat) : Int))) s
       | none => .ok (Ret.val (.int (-1))) s                                          -- 10
+
+/-- §15.4.4.8 reverse, step 6 -/
+def reverseStep (lower upper : Nat) : M σ Unit := fun s =>
+  let lowerValue := O.get s lower                                                    -- d
+  let upperValue := O.get s upper                                                    -- e
+  let lowerExists := O.has s lower                                                   -- f
+  let upperExists := O.has s upper                                                   -- g
+  if lowerExists ∧ upperExists then (do O.put lower upperValue; O.put upper lowerValue) s       -- h
+  else if !lowerExists ∧ upperExists then (do O.put lower upperValue; O.del upper) s            -- i
+  else if lowerExists ∧ !upperExists then (do O.del lower; O.put upper lowerValue) s            -- j
+  else .ok () s                                                                                 -- k
+
+def reverse : M σ Ret := fun s =>
+  let len := O.len s
+  let middle := len / 2                                                              -- 4
+  (do forUp (fun lower => reverseStep O lower (len - lower - 1)) 0 middle            -- 5, 6
+      pure (Ret.val .recv)) s                                                        -- 7
+
+/-- §15.4.4.5 join -/
+def join (args : List Val) : M σ Ret := fun s =>
+  let len := O.len s
+  let sep := if argAt args 0 = .undef then [44] else E.ts (argAt args 0)             -- 4, 5
+  if len = 0 then .ok (Ret.val (.str [])) s                                          -- 6
+  else
+    let str (k : Nat) : List Nat :=
+      match O.get s k with
+      | .undef => []
+      | .null => []
+      | element => E.ts element
+    let r := (List.range (len - 1)).foldl (fun r k => (r ++ sep) ++ str (k + 1)) (str 0)   -- 7–10
+    .ok (Ret.val (.str r)) s                                                         -- 11
+
+/-- §15.4.4.4 concat -/
+def concat (items : List CArg) : M σ Ret := fun s =>
+  let ofThis : List (Option Val) :=
+    if O.isArr s then
+      (List.range (O.len s)).map fun k => if O.has s k then some (O.get s k) else none   -- 5.b.iii
+    else [some .recv]                                                                    -- 5.c
+  let ofItems : List (Option Val) := items.flatMap fun e =>
+    match e with
+    | .v x => [some x]
+    | .arr es => es
+  .ok (Ret.arr (ofThis ++ ofItems)) s
+
+/-- §15.4.4.12 splice -/
+def splice (args : List Val) : M σ Ret := fun s =>
+  let len := O.len s
+  let relativeStart := toInteger E (argAt args 0)                                    -- 5
+  let actualStart := relIndex relativeStart len                                      -- 6
+  let actualDeleteCount : Nat :=                                                     -- 7: min(max(ToInteger(deleteCount),0), len − actualStart)
+    match toInteger E (argAt args 1) with
+    | .ninf => 0
+    | .pinf => len - actualStart
+    | .fin i => if i < 0 then 0 else if i < (len - actualStart : Nat) then i.toNat else len - actualStart
+  let a : List (Option Val) := (List.range actualDeleteCount).map fun k =>           -- 8, 9
+    if O.has s (actualStart + k) then some (O.get s (actualStart + k)) else none
+  let items := args.drop 2                                                           -- 10
+  let itemCount := items.length                                                      -- 11
+  (do
+    if itemCount < actualDeleteCount then                                            -- 12
+      forUp (fun k => moveOrDelete O (k + actualDeleteCount) (k + itemCount)) actualStart (len - actualDeleteCount - actualStart)
+      forDown (fun k' => O.del k') (len - actualDeleteCount + itemCount) (actualDeleteCount - itemCount)   -- d: k = k'+1
+    else if itemCount > actualDeleteCount then                                       -- 13
+      forDown (fun k' => moveOrDelete O (k' + actualDeleteCount) (k' + itemCount)) actualStart (len - actualDeleteCount - actualStart)
+    else pure ()
+    putFrom O items actualStart                                                      -- 14, 15
+    O.putLen (.int ((len - actualDeleteCount + itemCount : Nat) : Int))              -- 16
+    pure (Ret.arr a)) s                                                              -- 17
+
+/-- §15.4.4.15 lastIndexOf -/
+def lastIndexOf (args : List Val) : M σ Ret := fun s =>
+  let searchElement := argAt args 0
+  let len := O.len s
+  if len = 0 then .ok (Ret.val (.int (-1))) s                                        -- 4
+  else
+    let n : IntInf := if args.length > 1 then toInteger E (argAt args 1) else .fin ((len : Int) - 1)   -- 5
+    let count : Nat :=                                                               -- k + 1
+      match n with
+      | .pinf => len                                                                 -- 6: min(n, len − 1)
+      | .ninf => 0                                                                   -- 7: len − |n| < 0
+      | .fin i =>
+        if i ≥ 0 then (if i < (len : Int) - 1 then i.toNat + 1 else len)
+        else ((len : Int) + i + 1).toNat
+    match searchDown (fun k => O.has s k && strictEq E searchElement (O.get s k)) count with   -- 8
+    | some k => .ok (Ret.val (.int k)) s
+    | none => .ok (Ret.val (.int (-1))) s                                            -- 9
+
+/-- §15.4.4.16 every -/
+def every (callable : Bool) : M σ Ret := fun s =>
+  let len := O.len s
+  if !callable then .err .type s else                                                -- 4
+  (do
+    let r ← findUp (fun k => fun s' =>
+      if O.has s' k then                                                             -- 7.b
+        (do let testResult ← O.call [O.get s' k, .int k, .recv]                      -- 7.c.i–ii
+            pure (if toBoolean testResult then none else some ())) s'                -- 7.c.iii
+      else .ok none s') 0 len
+    match r with
+    | some _ => pure (Ret.val (.bool false))
+    | none => pure (Ret.val (.bool true))) s                                         -- 8
+
+/-- §15.4.4.17 some -/
+def some_ (callable : Bool) : M σ Ret := fun s =>
+  let len := O.len s
+  if !callable then .err .type s else
+  (do
+    let r ← findUp (fun k => fun s' =>
+      if O.has s' k then
+        (do let testResult ← O.call [O.get s' k, .int k, .recv]
+            pure (if toBoolean testResult then some () else none)) s'
+      else .ok none s') 0 len
+    match r with
+    | some _ => pure (Ret.val (.bool true))
+    | none => pure (Ret.val (.bool false))) s
+
+/-- §15.4.4.18 forEach -/
+def forEach (callable : Bool) : M σ Ret := fun s =>
+  let len := O.len s
+  if !callable then .err .type s else
+  (do
+    forUp (fun k => fun s' =>
+      if O.has s' k then (do let _ ← O.call [O.get s' k, .int k, .recv]; pure ()) s'
+      else .ok () s') 0 len
+    pure (Ret.val .undef)) s
+
+/-- §15.4.4.19 map -/
+def map (callable : Bool) : M σ Ret := fun s =>
+  let len := O.len s
+  if !callable then .err .type s else
+  (do
+    let a ← foldUp (fun k (a : List (Option Val)) => fun s' =>                       -- 6: A = new Array(len)
+      if O.has s' k then
+        (do let mappedValue ← O.call [O.get s' k, .int k, .recv]; pure (a ++ [some mappedValue])) s'   -- 8.c
+      else .ok (a ++ [none]) s') 0 len []
+    pure (Ret.arr a)) s
+
+/-- §15.4.4.20 filter -/
+def filter (callable : Bool) : M σ Ret := fun s =>
+  let len := O.len s
+  if !callable then .err .type s else
+  (do
+    let a ← foldUp (fun k (a : List (Option Val)) => fun s' =>
+      if O.has s' k then
+        let kValue := O.get s' k
+        (do let selected ← O.call [kValue, .int k, .recv]
+            pure (if toBoolean selected then a ++ [some kValue] else a)) s'
+      else .ok a s') 0 len []
+    pure (Ret.arr a)) s
+
+/-- §15.4.4.21 reduce; `args` = the arguments after callbackfn -/
+def reduce (callable : Bool) (args : List Val) : M σ Ret := fun s =>
+  let len := O.len s
+  if !callable then .err .type s                                                     -- 4
+  else if len = 0 ∧ args.length = 0 then .err .type s                                -- 5
+  else
+    let first : Option (Val × Nat) :=
+      if args.length > 0 then some (argAt args 0, 0)                                 -- 7
+      else match searchUp (O.has s) 0 len with                                       -- 8.b
+        | some k => some (O.get s k, k + 1)
+        | none => none
+    match first with
+    | none => .err .type s                                                           -- 8.c
+    | some (accumulator, k) =>
+      (do
+        let acc ← foldUp (fun k (accumulator : Val) => fun s' =>                     -- 9
+          if O.has s' k then O.call [accumulator, O.get s' k, .int k, .recv] s'
+          else .ok accumulator s') k (len - k) accumulator
+        pure (Ret.val acc)) s                                                        -- 10
+
+/-- §15.4.4.22 reduceRight -/
+def reduceRight (callable : Bool) (args : List Val) : M σ Ret := fun s =>
+  let len := O.len s
+  if !callable then .err .type s
+  else if len = 0 ∧ args.length = 0 then .err .type s
+  else
+    let first : Option (Val × Nat) :=               -- (accumulator, k + 1)
+      if args.length > 0 then some (argAt args 0, len)
+      else match searchDown (O.has s) len with
+        | some k => some (O.get s k, k)
+        | none => none
+    match first with
+    | none => .err .type s
+    | some (accumulator, count) =>
+      (do
+        let acc ← foldDown (fun k (accumulator : Val) => fun s' =>
+          if O.has s' k then O.call [accumulator, O.get s' k, .int k, .recv] s'
+          else .ok accumulator s') 0 count accumulator
+        pure (Ret.val acc)) s
 
 end Methods
 
